@@ -82,6 +82,9 @@ class SymRE(object):
         fl = z3.ToReal(z3.ToInt(self.t))
         return SymRE(fl, integral=True), SymRE(self.t - fl)
 
+    def __bool__(self):
+        return cur().decide(self.t != 0)
+
     def _cmp(self, o, op):
         if symx.is_nonfinite(o):
             return symx._cmp_nonfinite(op, True, o)
